@@ -46,6 +46,9 @@ def load_unit_ops(u):
     for f in overlay_files(u):
         if os.path.exists(f):
             ops += load_ops(f)
+    flt = getattr(u, 'OVERLAY_FILTER', None)      # a unit may use only part of a shared overlay
+    if flt:
+        ops = [o for o in ops if flt(o)]
     return ops
 
 
